@@ -22,6 +22,10 @@ const (
 	fInt fkind = iota
 	fBool
 	fFunc
+	fStr   // a string given as its runes (concrete mode only)
+	fIter  // iterator of a range over a string
+	fTuple // result of next
+	fErr   // an error value: b tells whether it is non-nil
 )
 
 type fval struct {
@@ -29,6 +33,14 @@ type fval struct {
 	i  int64
 	b  bool
 	fn func(args []fval) (fval, error)
+	rs []rune
+	it *fiter
+	tu []fval
+}
+
+type fiter struct {
+	rs  []rune
+	pos int
 }
 
 func (v fval) String() string {
@@ -42,12 +54,17 @@ func (v fval) String() string {
 }
 
 type fenv struct {
-	cells map[int]*fval // captured variables by FreeVar index
-	steps int
+	cells    map[int]*fval // captured variables by FreeVar index
+	steps    int
+	concrete bool                                       // integers are concrete values: ordering comparisons are meaningful
+	extern   map[string]func(args []fval) (fval, error) // pure library functions evaluated natively, by full name
 }
 
 func constVal(c *ssa.Const) (fval, error) {
 	if c.Value == nil {
+		if isErrorType(c.Type()) {
+			return fval{k: fErr, b: false}, nil
+		}
 		return fval{}, fmt.Errorf("nil constant")
 	}
 	switch c.Value.Kind() {
@@ -120,6 +137,13 @@ func (e *fenv) run(fn *ssa.Function, args []fval, depth int) ([]fval, error) {
 			case *ssa.UnOp:
 				switch x.Op {
 				case token.MUL:
+					if pr, isP := x.X.(*ssa.Parameter); isP {
+						// a pointer parameter standing for the value it points to (read-only use)
+						if v, has := regs[pr]; has && v.k == fStr {
+							regs[x] = v
+							continue
+						}
+					}
 					c, err := cellOf(x.X)
 					if err != nil {
 						return nil, err
@@ -160,6 +184,21 @@ func (e *fenv) run(fn *ssa.Function, args []fval, depth int) ([]fval, error) {
 					}
 					continue
 				}
+				if l.k == fErr && r.k == fErr {
+					if l.b && r.b {
+						return nil, fmt.Errorf("comparison of two non-nil errors")
+					}
+					eq := l.b == r.b
+					switch x.Op {
+					case token.EQL:
+						regs[x] = fval{k: fBool, b: eq}
+					case token.NEQ:
+						regs[x] = fval{k: fBool, b: !eq}
+					default:
+						return nil, fmt.Errorf("unsupported error op %s", x.Op)
+					}
+					continue
+				}
 				if l.k != fInt || r.k != fInt {
 					return nil, fmt.Errorf("unsupported operands of %s", x.Op)
 				}
@@ -169,8 +208,22 @@ func (e *fenv) run(fn *ssa.Function, args []fval, depth int) ([]fval, error) {
 				case token.NEQ:
 					regs[x] = fval{k: fBool, b: l.i != r.i}
 				case token.LSS, token.LEQ, token.GTR, token.GEQ:
-					// abstract runes carry no order
-					return nil, fmt.Errorf("ordering comparison %s on an abstract value", x.Op)
+					if !e.concrete {
+						// abstract runes carry no order
+						return nil, fmt.Errorf("ordering comparison %s on an abstract value", x.Op)
+					}
+					var t bool
+					switch x.Op {
+					case token.LSS:
+						t = l.i < r.i
+					case token.LEQ:
+						t = l.i <= r.i
+					case token.GTR:
+						t = l.i > r.i
+					default:
+						t = l.i >= r.i
+					}
+					regs[x] = fval{k: fBool, b: t}
 				case token.ADD:
 					regs[x] = fval{k: fInt, i: l.i + r.i}
 				case token.SUB:
@@ -198,6 +251,14 @@ func (e *fenv) run(fn *ssa.Function, args []fval, depth int) ([]fval, error) {
 					av = append(av, v)
 				}
 				if callee := x.Common().StaticCallee(); callee != nil {
+					if ext, isExt := e.extern[callee.String()]; isExt {
+						r, err := ext(av)
+						if err != nil {
+							return nil, err
+						}
+						regs[x] = r
+						continue
+					}
 					if len(callee.FreeVars) > 0 || callee.Pkg == nil || callee.Pkg != fn.Pkg {
 						return nil, fmt.Errorf("call of %s not evaluable", callee)
 					}
@@ -209,6 +270,14 @@ func (e *fenv) run(fn *ssa.Function, args []fval, depth int) ([]fval, error) {
 						regs[x] = rs[0]
 					}
 					continue
+				}
+				if bi, isB := x.Common().Value.(*ssa.Builtin); isB {
+					if bi.Name() == "len" && len(av) == 1 && av[0].k == fStr {
+						// length in bytes of the UTF-8 encoding
+						regs[x] = fval{k: fInt, i: int64(len(string(av[0].rs)))}
+						continue
+					}
+					return nil, fmt.Errorf("builtin %s not evaluable", bi.Name())
 				}
 				fv, err := get(x.Common().Value)
 				if err != nil {
@@ -226,6 +295,10 @@ func (e *fenv) run(fn *ssa.Function, args []fval, depth int) ([]fval, error) {
 				v, err := get(x.X)
 				if err != nil {
 					return nil, err
+				}
+				if v.k == fStr {
+					regs[x] = v
+					continue
 				}
 				if _, isBasic := x.Type().Underlying().(*types.Basic); !isBasic || v.k != fInt {
 					return nil, fmt.Errorf("unsupported conversion")
@@ -261,6 +334,38 @@ func (e *fenv) run(fn *ssa.Function, args []fval, depth int) ([]fval, error) {
 					out = append(out, v)
 				}
 				return out, nil
+			case *ssa.Range:
+				v, err := get(x.X)
+				if err != nil {
+					return nil, err
+				}
+				if v.k != fStr {
+					return nil, fmt.Errorf("range over a non-string")
+				}
+				regs[x] = fval{k: fIter, it: &fiter{rs: v.rs}}
+			case *ssa.Next:
+				v, err := get(x.Iter)
+				if err != nil {
+					return nil, err
+				}
+				if v.k != fIter || !x.IsString {
+					return nil, fmt.Errorf("next on a non-string iterator")
+				}
+				if v.it.pos >= len(v.it.rs) {
+					regs[x] = fval{k: fTuple, tu: []fval{{k: fBool, b: false}, {k: fInt}, {k: fInt}}}
+				} else {
+					regs[x] = fval{k: fTuple, tu: []fval{{k: fBool, b: true}, {k: fInt, i: int64(v.it.pos)}, {k: fInt, i: int64(v.it.rs[v.it.pos])}}}
+					v.it.pos++
+				}
+			case *ssa.Extract:
+				v, err := get(x.Tuple)
+				if err != nil {
+					return nil, err
+				}
+				if v.k != fTuple || x.Index >= len(v.tu) {
+					return nil, fmt.Errorf("extract from a non-tuple")
+				}
+				regs[x] = v.tu[x.Index]
 			case *ssa.DebugRef:
 			default:
 				return nil, fmt.Errorf("unsupported instruction %T at %s", ins, fn.Prog.Fset.Position(ins.Pos()))
